@@ -259,7 +259,8 @@ func (g *protoGen) program() []drive.WOp {
 		}
 		// legal ops
 		if g.inStruct() && !g.pendFld {
-			if len(g.stack) > 0 && r.Chance(1, 4) {
+			diving := g.deep && len(g.stack) < g.maxDepth && len(ops) < 2*g.maxDepth
+			if len(g.stack) > 0 && !diving && r.Chance(1, 4) {
 				ops = append(ops, drive.WOp{Op: "endstruct"})
 				g.stack = g.stack[:len(g.stack)-1]
 				continue
@@ -630,6 +631,26 @@ func (s protocol) Run(c *Ctx, i int) {
 	fr := r.Fork()
 	if i < 3 {
 		c.Sample(map[string]interface{}{"index": i, "ops": opNames(ops), "configs": len(cfgs)})
+	}
+	depth, maxDepth := 0, 0
+	for _, o := range ops {
+		if strings.HasPrefix(o.Op, "begin") {
+			depth++
+			if depth > maxDepth {
+				maxDepth = depth
+			}
+		} else if strings.HasPrefix(o.Op, "end") && depth > 0 {
+			depth--
+		}
+	}
+	switch {
+	case maxDepth > 64:
+		c.Count("proto.programs-nesting-deeper-than-64", 1)
+	case maxDepth > 32:
+		c.Count("proto.programs-nesting-33..64", 1)
+	}
+	if g.bulky {
+		c.Count("proto.programs-bulky", 1)
 	}
 	for _, cfg := range cfgs {
 		base := s.runOne(c, cfg, ops, sim.WritePlan{}, true)
